@@ -248,5 +248,7 @@ class C08(core.PropBase):
             yield {"s": s[:i] + s[i + 1:]}
 
 
+PROP = C08()
+
 if __name__ == "__main__":
-    sys.exit(core.main(C08(), sys.argv[1:]))
+    sys.exit(core.main(PROP, sys.argv[1:]))
